@@ -22,7 +22,9 @@ EXPLANATION = (
     "spins does not contribute) for every target spin string: the returned sum contains, for every term, "
     "exactly one substituted copy per spin assignment of ALL its indices that agrees with the target spins and gives "
     "every object an allowed block (brute force over 2^n assignments) - none missing, none twice, nothing else; "
-    "accumulators start at 0 with the assumptions of the input and carry the target indices (same names, requested "
+    "a pure number is added unwrapped (term.sympy; the Term container is accepted only when no target indices are provided, "
+    "Expr.__iadd__ refuses it otherwise), an expression without terms gives the empty accumulator; every scenario is run with "
+    "and without provided target indices; accumulators start at 0 with the assumptions of the input and carry the target indices (same names, requested "
     "spins) iff the input had target indices; non-Expr input, spin/target length mismatch, one target index with two "
     "spins, foreign term targets and spatial-orbital input are refused. R15a: the term with two unassigned contracted "
     "indices yields the 4 distinct variants (the variants do not share state). R15b: terms without any object of known "
@@ -30,7 +32,9 @@ EXPLANATION = (
     "patterns of <pq||rs>, exponents 1, 2, n, both return modes: [d(sp,sr)d(sq,ss)(pr|qs) - d(sp,ss)d(sq,sr)(ps|qr)]^exponent "
     "with bra-ket symmetric Coulomb tensors of the configured name, sym_tensors extended iff a Coulomb tensor was "
     "produced, non-ERI objects untouched, non-symmetric ERI refused; the expansion is non-zero exactly on the allowed ERI "
-    "blocks. R15d: Obj.allowed_spin_blocks / "
+    "blocks. R15d: every configurable tensor name of tensor_names.TensorNames (read from the library) has a spin selection "
+    "rule in the oracle, derived from what the tensor is: ERI, Coulomb, t-amplitudes, the fock matrix (spin free one particle "
+    "operator: aa, bb), orbital energies and denominators (no rule: None or every block); Obj.allowed_spin_blocks / "
     "NormalOrdered.allowed_spin_blocks evaluated for every object kind against the spin-conservation oracle (ERI, "
     "Coulomb, delta, operators, t-amplitudes with 2/4/6 indices, registered and unregistered intermediates, "
     "prefactors). R15e: transform_to_spatial_orbitals with integrate_spin replaced by a model of its result: arguments "
@@ -51,6 +55,9 @@ ASSUMPTIONS = [
     "allowed_spin_blocks and transform_to_spatial_orbitals their consequences are decided by evaluation",
     "simplify and Expr.expand are taken to be value preserving (not decided here); of sympy's subs/xreplace only the "
     "index renaming and the evaluation of Kronecker deltas between different spins are modelled",
+    "the operator matrix (tensor_names.operator), the ground state density and the ADC amplitude vectors get no spin blocks "
+    "from the library (None = every block); for spin conserving values of these tensors the restricted result over-counts "
+    "(mixed blocks are renamed into all-alpha ones). R15d records this as a note and does not decide it (reported)",
     "allowed_spin_blocks(expr, ..) is evaluated only for expressions in which every indexed object has known spin "
     "blocks closed under the global spin flip (its documented domain)",
 ]
@@ -361,6 +368,7 @@ def _families():
             ("C2", "R15f", [("d", "ik", DELTA), ("d", "jl", DELTA)]),
             ("C3", "R15f", [("t2", "ijab", t_blocks(2)), ("t2", "klab", t_blocks(2))]),
         ]),
+        "Z": ("ia", []),    # no term at all: the result is the empty accumulator with the requested targets
         "D": ("kc", [
             ("D1", "R15a", [("d", "ab", X), ("z", "ba", X), ("t", "ck", t_blocks(1))]),
             ("D2", "R15f", [("t3", "ijkabc", t_blocks(3)), ("V", "ijab", ERI)]),
@@ -381,15 +389,15 @@ def r15f(ctx):
     n = 0
     for fname, (target, fam) in _families().items():
         all_spins = ["".join(s) for s in itertools.product("ab", repeat=len(target))]
-        for k, spins in enumerate(all_spins):
-            provided = (k % 2 == 0)
-            what = f"integrate_spin(family {fname}, targets {target or '-'} = {spins or '-'})"
+        for spins, provided in itertools.product(all_spins, (True, False)):
+            tag = f"{spins}{' with targets' if provided else ''}"
+            what = f"integrate_spin(family {fname}, targets {target or '-'} = {spins or '-'}{', target indices provided' if provided else ''})"
             res = evaluate(ctx, fn, lambda W: _build_isr(W, fam, target, spins, provided), what)
             n += len(fam)
             rets = [(o, W) for o, W in res if o.kind == "return"]
             if len(res) != 1 or len(rets) != 1:
                 ctx.bad("R15f", fn, f"{what}: the model evaluation does not return on a single path: "
-                        f"{[repr(o)[:200] for o, _ in res][:3]}", key=f"{fname} {spins} outcome")
+                        f"{[repr(o)[:200] for o, _ in res][:3]}", key=f"{fname} {tag} outcome")
                 continue
             o, W = rets[0]
             parts = flat(o.value, W)
@@ -399,10 +407,14 @@ def r15f(ctx):
                 mobjs = [(lab, W.ix(ix), bl) for lab, ix, bl in objs]
                 indices = [i for _, ix, _ in mobjs for i in ix]
                 recv = sym(name + ".sympy")
-                mine = [p for p in left if isinstance(p, T) and p.op == "subs" and p.args[0] == recv or p == sym(name)]
+                mine = [p for p in left if isinstance(p, T) and p.op == "subs" and p.args[0] == recv or p in (sym(name), recv)]
                 left = [p for p in left if not any(p is q for q in mine)]
                 if not indices:
-                    want = [sym(name)]      # a pure number is kept as it is
+                    # a pure number is kept as it is: the unwrapped number.  The Term container carries the spin-less target
+                    # indices of the input; Expr.__iadd__ refuses it (TypeError) when the result carries the targets with spin
+                    want = [recv]
+                    if not provided:
+                        mine = [recv if p == sym(name) else p for p in mine]
                 else:
                     want = [subs_key(name, s) for s in assignments(indices, mobjs, fixed)]
                 missing, surplus = multiset_diff(multiset(map(repr, mine)), multiset(map(repr, want)))
@@ -413,17 +425,17 @@ def r15f(ctx):
                            f"{len(mine)} contributions; missing {len(missing)}: {missing[:2]}; surplus (wrong or repeated) "
                            f"{len(surplus)}: {surplus[:2]}")
                 ctx.check(rule, fn, not why, f"{what}: term {name}: exactly the {len(want)} consistent spin assignments, each once",
-                          why, key=f"{fname} {spins} {name}")
+                          why, key=f"{fname} {tag} {name}")
             accs = [p.args[0] for p in left if isinstance(p, T) and p.op == "sym" and str(p.args[0]).startswith("Expr#")]
             other = [p for p in left if not (isinstance(p, T) and p.op == "sym" and str(p.args[0]).startswith("Expr#"))]
             ctx.check("R15f", fn, not other, f"{what}: nothing but the spin variants of the terms",
                       f"{what}: the result contains summands that are no spin variant of an input term: {[show(x)[:120] for x in other[:3]]}",
-                      key=f"{fname} {spins} foreign")
+                      key=f"{fname} {tag} foreign")
             ctx.check("R15f", fn, len(accs) >= 1, f"{what}: result is an Expr", f"{what}: no Expr accumulator in the result",
-                      key=f"{fname} {spins} result")
+                      key=f"{fname} {tag} result")
             want_t = tuple(nm + "_" + s for nm, s in zip(target, spins)) if provided else None
-            check_accumulators(ctx, "R15f", fn, what, W, accs, {"real": True, "sym_tensors": ("x",)}, want_t, f"{fname} {spins}")
-    ctx.floor("R15f", "terms of the integrate_spin model evaluated", n, 90)
+            check_accumulators(ctx, "R15f", fn, what, W, accs, {"real": True, "sym_tensors": ("x",)}, want_t, f"{fname} {tag}")
+    ctx.floor("R15f", "terms of the integrate_spin model evaluated", n, 180)
     # input guards
     fam = _families()["A"][1][:3]
 
@@ -578,6 +590,33 @@ def r15e(ctx):
 # ---------------------------------------------------------------------------- R15c
 
 
+# what every configurable tensor name stands for -> spin selection rule of the tensor (None: no rule, every block allowed);
+# "open": the property requires the rule, the library does not implement it (reported, not decided - see ASSUMPTIONS)
+MEANING = {
+    "eri": ("eri", (4,), False), "coulomb": ("coulomb", (4,), False), "fock": ("one-particle", (2,), False),
+    "operator": ("one-particle", (2,), True), "gs_density": ("one-particle", (2,), True),
+    "gs_amplitude": ("t", (2, 4, 6), False), "left_adc_amplitude": ("t", (2, 4), True), "right_adc_amplitude": ("t", (2, 4), True),
+    "orb_energy": (None, (1,), False), "sym_orb_denom": (None, (2, 4), False),
+}
+
+
+def tensor_name_fields(model):
+    """field -> default name of the library's TensorNames"""
+    import ast
+    cls = model.cls("tensor_names:TensorNames")
+    out = {}
+    for st in cls.body:
+        if isinstance(st, ast.AnnAssign) and isinstance(st.target, ast.Name) and isinstance(st.value, ast.Constant) \
+                and isinstance(st.value.value, str):
+            out[st.target.id] = st.value.value
+    if len(out) < 8:
+        raise AnalysisError(f"R15d: only {len(out)} tensor names found in tensor_names.TensorNames")
+    return out
+
+
+_NAMES = {}
+
+
 def _tensor_hooks(W):
     def tensor(cls):
         def h(sx, a, kw):
@@ -595,6 +634,7 @@ def _tensor_hooks(W):
         return t_pow(b.term if isinstance(b, Obj) else b, e)
     names = Obj(None, "tensor_names")
     names.attrs.update(eri="V", coulomb="v", gs_amplitude="t", fock="f", sym_orb_denom="D", orb_energy="e", gs_density="p")
+    names.attrs.update(_NAMES)
     S = Obj(None, "S")
     S.attrs.update(Zero=0, One=1, NegativeOne=-1)
     return {"SymmetricTensor": tensor("SymmetricTensor"), "AntiSymmetricTensor": tensor("AntiSymmetricTensor"), "Pow": power,
@@ -739,17 +779,31 @@ def r15d(ctx):
         ("delta", None, ("KroneckerDelta",), 2, "delta"),
         ("operator F", None, ("F", "AnnihilateFermion", "FermionicOperator"), 1, "operator"),
         ("operator Fd", None, ("Fd", "CreateFermion", "FermionicOperator"), 1, "operator"),
-        ("itmd", "X", AST, 2, ("ab", "ba")),
-        ("itmd nonsym", "Xn", ("NonSymmetricTensor", "SymbolicTensor"), 3, ("aab",)),
+        ("itmd", "I1", AST, 2, ("ab", "ba")),
+        ("itmd nonsym", "I2n", ("NonSymmetricTensor", "SymbolicTensor"), 3, ("aab",)),
         ("unknown", "U", AST, 2, None),
         ("prefactor", None, ("Rational",), 0, None),
         ("t odd", "t2", ("Amplitude",) + AST, 3, "raise"),
     ]
+    fields = tensor_name_fields(ctx.model)
+    unknown = sorted(set(fields) - set(MEANING))
+    ctx.check(rule, fn, not unknown, "every configurable tensor name has a spin selection rule in the oracle",
+              f"tensor names {unknown} of tensor_names.TensorNames have no entry in the oracle of spin selection rules", key="names covered")
+    open_cases = set()
+    for field, (kind, sizes, is_open) in MEANING.items():
+        if field not in fields or field in ("eri", "coulomb", "gs_amplitude"):
+            continue    # the rows above decide these (the t-amplitude names carry an order)
+        for nidx in sizes:
+            key = f"{field} {nidx}"
+            cases.append((key, fields[field], ("NonSymmetricTensor", "SymbolicTensor") if nidx == 1 else AST, nidx,
+                          {"one-particle": "delta", "t": "t", None: "all"}[kind]))
+            if is_open:
+                open_cases.add(key)
     for key, name, classes, nidx, kind in cases:
         def extra(W):
             reg = Obj(None, "Intermediates()")
             known = {}
-            for nm, bl in (("X", ("ab", "ba")), ("Xn", ("aab",))):
+            for nm, bl in (("I1", ("ab", "ba")), ("I2n", ("aab",))):
                 it = Obj(None, "itmd " + nm)
                 it.attrs.update(allowed_spin_blocks=bl, _identity=True)
                 known["long-" + nm] = it
@@ -776,6 +830,18 @@ def r15d(ctx):
             ctx.bad(rule, fn, f"{key}: no single returning path: {[repr(o)[:200] for o, _ in res][:3]}", key=f"outcome {key}")
             continue
         v = res[0][0].value
+        if kind == "all" or (key in open_cases and v is None):
+            # no selection rule: None (= every block) or the full table
+            full = sorted("".join(b) for b in itertools.product("ab", repeat=nidx))
+            if kind == "all":
+                ctx.check(rule, fn, v is None or (isinstance(v, (tuple, list)) and sorted(v) == full), f"{key}: every block allowed",
+                          f"{key} ({name}, {nidx} indices) has no spin selection rule, but only the blocks {show(v)[:200]} are allowed",
+                          key=f"blocks {key}")
+            else:
+                ctx.note(f"R15d: {key} (tensor {name}): the library allows every spin block (None); a spin-free one-particle quantity / "
+                         "spin conserving amplitude vanishes on the other blocks, which the restricted branch renames into non-vanishing "
+                         "ones - reported, not decided")
+            continue
         if isinstance(kind, str):
             want = sorted("".join(b) for b in itertools.product("ab", repeat=nidx) if _conserving(kind, b))
         else:
@@ -958,6 +1024,8 @@ def r15h_itmd(ctx):
 
 
 def run(ctx):
+    _NAMES.clear()
+    _NAMES.update(tensor_name_fields(ctx.model))
     if ctx.want("R15g"):
         r15g(ctx)
     if ctx.want("R15f") or ctx.want("R15a") or ctx.want("R15b"):
